@@ -29,6 +29,7 @@ type Mutant struct {
 
 var Mutants = map[string][]Mutant{
 	"C01": {
+		{"status Remove rebalances once instead of every ancestor", "path_intersection.go", `for ; ancestor != nil; ancestor = ancestor\.parent \{`, "if ancestor != nil {", "E9.moved-node-height"},
 		{"Reverse flips the direction flag of the receiver only", "path_intersection.go", `s\.increasing, s\.other\.increasing = !s\.increasing, !s\.other\.increasing`, "s.increasing, s.other.increasing = !s.increasing, s.increasing", "E9.endpoint-pair"},
 		{"extra contours of a clipping element appended to the subject list", "path_intersection.go", `(\t\t\t\tqs\[i\] = split\[0\]\n\t\t\t\t)qs = append\(qs, split\[1:\]\.\.\.\)`, "${1}ps = append(ps, split[1:]...)", "E9.operand-lists-separate"},
 		{"depth plus one computed before the depth is read", "path_intersection.go", `(?s)(\t\t\twindings := 0\n)(\t\t\tprev := cur\.prev\n.*?)\t\t\tcur\.resultWindings = windings\n\t\t\tif !first\.open \{\n\t\t\t\t// we go to the right/top\n\t\t\t\tcur\.resultWindings\+\+\n\t\t\t\}\n`, "${1}\t\t\tabove := windings\n\t\t\tif !cur.open {\n\t\t\t\tabove++\n\t\t\t}\n${2}\t\t\tcur.resultWindings = above\n", "E9.depth-derived-after-read"},
@@ -48,6 +49,7 @@ var Mutants = map[string][]Mutant{
 		{"empty Q returns P for And", "path_intersection.go", `if op == opAND \{\n\t\t\treturn &Path\{\}\n\t\t\}\n\t\treturn ps\.Settle\(fillRule\)`, `return ps.Settle(fillRule)`, "E9.shortcut"},
 	},
 	"C02": {
+		{"status Remove rebalances once instead of every ancestor", "path_intersection.go", `for ; ancestor != nil; ancestor = ancestor\.parent \{`, "if ancestor != nil {", "E9.moved-node-height"},
 		{"result windings copied to the other end point for left-to-right edges only", "path_intersection.go", `(?s)(\t\t\t\tif cur\.left && !first\.open \{\n\t\t\t\t\t// we go to the right/top\n\t\t\t\t\tcur\.resultWindings\+\+\n)(\t\t\t\t\}\n)\t\t\t\tcur\.other\.resultWindings = cur\.resultWindings\n`, "${1}\t\t\t\t\tcur.other.resultWindings = cur.resultWindings\n${2}", "E9.windings-sync"},
 		{"depth plus one computed before the depth is read", "path_intersection.go", `(?s)(\t\t\twindings := 0\n)(\t\t\tprev := cur\.prev\n.*?)\t\t\tcur\.resultWindings = windings\n\t\t\tif !first\.open \{\n\t\t\t\t// we go to the right/top\n\t\t\t\tcur\.resultWindings\+\+\n\t\t\t\}\n`, "${1}\t\t\tabove := windings\n\t\t\tif !cur.open {\n\t\t\t\tabove++\n\t\t\t}\n${2}\t\t\tcur.resultWindings = above\n", "E9.depth-derived-after-read"},
 		{"neighbours of a leaving segment tested only across operands", "path_intersection.go", `(next := n\.Next\(\)\n\t\t\t\tif prev != nil && next != nil) \{`, "$1 && (op == opSettle || prev.clipping != next.clipping) {", "E9.adjacent-always-tested"},
@@ -144,6 +146,7 @@ var Mutants = map[string][]Mutant{
 		{"Windings looks at the whole path only", "path.go", `\tfor _, pi := range p\.Split\(\) \{\n\t\tzs := pi\.RayIntersections\(x, y\)`, "\tfor _, pi := range []*Path{p} {\n\t\tzs := pi.RayIntersections(x, y)", "E9.subpaths"},
 	},
 	"C07": {
+		{"ToSVG matrix form written row by row", "util.go", `-dec\(m\[1\]\[0\]\), -dec\(m\[0\]\[1\]\)`, "-dec(m[0][1]), -dec(m[1][0])", "E11.svg-matrix-order"},
 		{"ShearAbout shears first and translates by the sheared pivot offset", "util.go", `return m\.Translate\(x, y\)\.Shear\(sx, sy\)\.Translate\(-x, -y\)`, "return m.Shear(sx, sy).Translate(-sx*y, -sy*x)", "E11.about-is-conjugation"},
 		{"Shear updates the entries of the receiver one after the other", "util.go", `(?s)(func \(m Matrix\) Shear\(sx, sy float64\) Matrix \{\n)\treturn m\.Mul\(Matrix\{\n[^\n]*\n[^\n]*\n\t\}\)\n`, "${1}\tm[0][0] += sy * m[0][1]\n\tm[1][1] += sx * m[1][0]\n\tm[0][1] += sx * m[0][0]\n\tm[1][0] += sy * m[1][1]\n\treturn m\n", "E11.matrix-composers"},
 		{"RotateAbout adds the pivot correction into the translation column", "util.go", `return m\.Translate\(x, y\)\.Rotate\(rot\)\.Translate\(-x, -y\)`, "sintheta, costheta := math.Sincos(rot * math.Pi / 180.0)\n\tm = m.Rotate(rot)\n\tm[0][2] += x - (costheta*x - sintheta*y)\n\tm[1][2] += y - (sintheta*x + costheta*y)\n\treturn m", "E11.matrix-composers"},
@@ -190,6 +193,7 @@ var Mutants = map[string][]Mutant{
 		{"quad case reads offset 5", "path.go", `\t\tcase QuadToCmd:\n\t\t\tcp := Point\{p\.d\[i\+1\], p\.d\[i\+2\]\}\n\t\t\tend = Point\{p\.d\[i\+3\], p\.d\[i\+4\]\}\n\t\t\txmin = math\.Min\(xmin, math\.Min\(cp\.X, end\.X\)\)`, "\t\tcase QuadToCmd:\n\t\t\tcp := Point{p.d[i+1], p.d[i+2]}\n\t\t\tend = Point{p.d[i+5], p.d[i+6]}\n\t\t\txmin = math.Min(xmin, math.Min(cp.X, end.X))", "E2.layout"},
 	},
 	"C10": {
+		{"status Remove rebalances once instead of every ancestor", "path_intersection.go", `for ; ancestor != nil; ancestor = ancestor\.parent \{`, "if ancestor != nil {", "E9.moved-node-height"},
 		{"smooth cubic after a relative smooth cubic is not reflected", "path.go", `prevCmd == 'C' \|\| prevCmd == 'c' \|\| prevCmd == 'S' \|\| prevCmd == 's'`, "prevCmd == 'C' || prevCmd == 'c' || prevCmd == 'S'", "E11.svg-smooth"},
 		{"position of the rest not clamped after the join (reverts fix ff037ad)", "path.go", `(?s)(\t\t\tp = p\.Join\(r\) // join the rest of the base path\n)\t\t\tif len\(p\.d\) < i \{\n[^\n]*\n\t\t\t\ti = len\(p\.d\)\n\t\t\t\}\n`, "$1", "E11.cursor-revalidated-after-join"},
 		{"Reverse probes the leading command of the previous record", "path.go", `if closed && \(i == 0 \|\| p\.d\[i-1\] == MoveToCmd\) \{`, "if closed && (i == 0 || p.d[i-cmdLen(MoveToCmd)] == MoveToCmd) {", "E2.layout"},
@@ -287,6 +291,7 @@ var Mutants = map[string][]Mutant{
 		{"stroke keeps even-odd star", "renderers/pdf/pdf.go", `\t\t\tif closed \{\n\t\t\t\tr\.w\.Write\(\[\]byte\(" s"\)\)\n\t\t\t\} else \{\n\t\t\t\tr\.w\.Write\(\[\]byte\(" S"\)\)\n\t\t\t\}\n\t\t\} else if style\.HasFill\(\) && style\.HasStroke\(\) \{`, "\t\t\tif closed {\n\t\t\t\tr.w.Write([]byte(\" s\"))\n\t\t\t} else {\n\t\t\t\tr.w.Write([]byte(\" S\"))\n\t\t\t}\n\t\t\tif style.FillRule == canvas.EvenOdd {\n\t\t\t\tr.w.Write([]byte(\"*\"))\n\t\t\t}\n\t\t} else if style.HasFill() && style.HasStroke() {", "E5.grammar"},
 	},
 	"C14": {
+		{"y flip height taken from the rectangle's Max", "renderers/rasterizer/rasterizer.go", `(?s)(func \(r \*Rasterizer\) RenderPath\(.*?size := r\.Bounds\(\))\.Size\(\)`, "${1}.Max", "E6.scanner-site"},
 		{"fill-only path transformed in place by the rasterizer", "renderers/rasterizer/rasterizer.go", `\t\tfill = path\.Copy\(\)\.Transform\(m\)\n`, "\t\tfill = path\n\t\tif style.HasStroke() {\n\t\t\tfill = fill.Copy()\n\t\t}\n\t\tfill = fill.Transform(m)\n", "E1.render-pure"},
 		{"rasterizer scans the even-odd rule in non-zero mode and the others in even-odd mode", "renderers/rasterizer/rasterizer.go", `SetWinding\(style\.FillRule != canvas\.EvenOdd\)`, "SetWinding(style.FillRule == canvas.EvenOdd)", "E6.fill-rule-map"},
 		{"stroke tolerance scaled by the diagonal of the view", "renderers/rasterizer/rasterizer.go", `if _, _, _, sx, sy, _ := m\.Decompose\(\); !canvas\.Equal\(sx, 0\.0\) \|\| !canvas\.Equal\(sy, 0\.0\) \{`, "if sx, sy := m[0][0], m[1][1]; !canvas.Equal(sx, 0.0) || !canvas.Equal(sy, 0.0) {", "E11.view-scale-invariant"},
@@ -310,6 +315,7 @@ var Mutants = map[string][]Mutant{
 		{"rasterizer ignores the fill rule", "renderers/rasterizer/rasterizer.go", `\t\tr\.scanner\.SetWinding\(style\.FillRule != canvas\.EvenOdd\)\n`, ``, "E6.style-field"},
 	},
 	"C15": {
+		{"Fit takes the image extent from the rectangle's corners", "canvas.go", `size := l\.img\.Bounds\(\)\.Size\(\)\n(\t+)bounds = Rect\{0\.0, 0\.0, float64\(size\.X\), float64\(size\.Y\)\}`, "b := l.img.Bounds()\n${1}bounds = Rect{float64(b.Min.X), float64(b.Min.Y), float64(b.Max.X), float64(b.Max.Y)}", "E11.image-extent-from-size"},
 		{"Context.Translate adds to the translation column of the view", "canvas.go", `(func \(c \*Context\) Translate\(x, y float64\) \{\n)\tc\.view = c\.view\.Mul\(Identity\.Translate\(x, y\)\)`, "${1}\tc.view[0][2] += x\n\tc.view[1][2] += y", "E11.view-postmul"},
 		{"DrawImage reflects about half the far corner of the image rectangle", "canvas.go", `(?s)(func \(c \*Context\) DrawImage\(.*?)m = m\.ReflectYAbout\(float64\(img\.Bounds\(\)\.Size\(\)\.Y\) / 2\.0\)`, "${1}m = m.ReflectYAbout(float64(img.Bounds().Max.Y) / 2.0)", "E11.image-extent-from-size"},
 		{"Clip translates each layer matrix on the right", "canvas.go", `\tc\.Transform\(Identity\.Translate\(-rect\.X0, -rect\.Y0\)\)\n`, "\tfor _, layers := range c.layers {\n\t\tfor i := range layers {\n\t\t\tlayers[i].m = layers[i].m.Translate(-rect.X0, -rect.Y0)\n\t\t}\n\t}\n", "E11.layer-matrix-left"},
